@@ -452,11 +452,19 @@ inline void forkedCases(long n, const std::function<void(long)> &fn, int timeout
   currentShared() = sh;
   long k     = 0;
   std::map<long, int> hangs;
+  // a tree on which nearly every case dies would otherwise cost one fork (and one sanitizer
+  // report, or two watchdog periods) per case: stop after a budget of abnormal cases
+  int abnormal          = 0;
+  const int maxAbnormal = getenv("VH_MAX_ABNORMAL") ? atoi(getenv("VH_MAX_ABNORMAL")) : 40;
   if (st().onlyCase >= 0) {
     k = st().onlyCase;
     n = k + 1 < n ? k + 1 : n;
   }
   while (k < n) {
+    if (abnormal >= maxAbnormal) {
+      inconclusive("forked cases stopped after " + std::to_string(abnormal) + " crashed/hung cases; cases " + std::to_string(k) + ".." + std::to_string(n - 1) + " were not run");
+      break;
+    }
     long end  = k + batch < n ? k + batch : n;
     sh->cur       = k;
     sh->beat      = 0;
@@ -509,6 +517,7 @@ inline void forkedCases(long n, const std::function<void(long)> &fn, int timeout
     if (killed) {
       int h = ++hangs[at];
       if (h >= 2) {
+        ++abnormal;
         emit(J().kv("t", "hang").kv("case", describe ? describe(at) : std::to_string(at)).kv("index", (long long)at).kv("pid", (long long)pid).str());
         k = at + 1;
       } else {
@@ -525,6 +534,7 @@ inline void forkedCases(long n, const std::function<void(long)> &fn, int timeout
       continue;
     }
     // abnormal end while working on case `at`
+    ++abnormal;
     emit(J().kv("t", "crash")
              .kv("case", describe ? describe(at) : std::to_string(at))
              .kv("index", (long long)at)
